@@ -44,7 +44,7 @@ Lemma rejected_not_hosted k sk cfg l uid :
   spec_accepts k (framer_cfg sk cfg l) uid = false ->
   ~ In (spec_key (cf_single cfg) uid) (u_keys slavectx l).
 Proof.
-  unfold spec_accepts, FrSpecA.spec_single, framer_cfg. cbn [c_single c_units]. intros H.
+  unfold spec_accepts, FrSpecA.spec_single, framer_cfg, unit_cfg. cbn [c_single c_units]. intros H.
   apply orb_false_elim in H as [H Hu]. apply orb_false_elim in H as [H _]. apply orb_false_elim in H as [Hs _].
   rewrite Hs. cbn [spec_key]. apply zmem_false_notin in Hu. intros Hin. apply Hu.
   unfold unit_list. destruct (ceval _ _); [apply in_or_app; left|]; exact Hin.
@@ -62,7 +62,7 @@ Hypothesis Hsk : fe_ok sk.
 Lemma served_accepted_k l uid : served sk cfg (u_keys slavectx l) uid -> k <> KTls ->
   spec_accepts k (framer_cfg sk cfg l) uid = true.
 Proof.
-  intros [_ Hin] Hk. unfold spec_accepts, FrSpecA.spec_single, framer_cfg. cbn [c_single c_units].
+  intros [_ Hin] Hk. unfold spec_accepts, FrSpecA.spec_single, framer_cfg, unit_cfg. cbn [c_single c_units].
   destruct (cf_single cfg) eqn:Es; [reflexivity|]. cbn [spec_key] in Hin. cbn [orb].
   assert (Hz : FrBaseA.zmem uid (unit_list sk cfg (u_keys slavectx l)) = true).
   { apply zmem_in. unfold unit_list. destruct (ceval _ _); [apply in_or_app; left|]; exact Hin. }
@@ -99,52 +99,22 @@ Qed.
 End Stream.
 
 (* ================================================================== the serial handler loop *)
-Section Loop.
-Context {FS : Type}.
-Variable recv : FrBaseA.cfg -> FS -> bytes -> FS * list delivery * outc.
-Variable pk : packer.
-Variable sk : skel.
-Variable cfg : scfg.
-Hypothesis Hsk : In sk all_fes.
-
-Lemma run_serial_feed : forall chunks st l st' ds l' b,
+Lemma run_serial_feed {FS} (recv : FrBaseA.cfg -> FS -> bytes -> FS * list delivery * outc) pk sk cfg :
+  In sk all_fes -> forall chunks st l st' ds l' b,
   Forall (fun c => c <> []) chunks ->
   feed (recv (framer_cfg sk cfg l)) st chunks = (st', ds, true) ->
   handle_all pk sk cfg l ds = (l', b, None) ->
   run_serial recv pk sk cfg st l chunks = result l' b st'.
 Proof.
-  induction chunks as [|c cs IH]; intros st l st' ds l' b Hne Hf Hh.
-  - cbn in Hf. injection Hf as <- <-. cbn in Hh. injection Hh as <- <-. reflexivity.
-  - inversion Hne as [|? ? Hc Hcs]; subst. cbn [feed] in Hf. cbn [run_serial].
-    destruct c as [|x c']; [contradiction|].
-    destruct (recv (framer_cfg sk cfg l) st (x :: c')) as [[s1 d1] o].
-    destruct (feed (recv (framer_cfg sk cfg l)) s1 cs) as [[s2 d2] ok] eqn:Ef.
-    injection Hf as <- <- Hflag.
-    destruct (handle_all_app pk sk cfg d1 l d2 l' b Hh) as (l1 & b1 & b2 & H1 & H2 & ->).
-    rewrite H1. destruct o; try discriminate Hflag. subst ok.
-    pose proof (handle_all_keys pk sk cfg d1 Hsk l l1 b1 H1) as Hk.
-    rewrite <- (framer_cfg_keys sk cfg l l1 Hk) in Ef.
-    rewrite (IH s1 l1 s2 d2 l' b2 Hcs Ef H2). reflexivity.
+  intros Hsk chunks st l st' ds l' b. unfold run_serial, framer_cfg.
+  apply (run_serial_feed_g (u_keys slavectx) (handle_all pk sk cfg) recv sk cfg
+           (handle_all_nil pk sk cfg) (fun d1 s d2 s' b0 => handle_all_app pk sk cfg d1 s d2 s' b0)
+           (fun ds0 => handle_all_keys pk sk cfg ds0 Hsk)).
 Qed.
 
-Definition nonempty (c : bytes) : bool := match c with [] => false | _ => true end.
-
-Lemma run_serial_filter : forall chunks st l,
+Lemma run_serial_filter {FS} (recv : FrBaseA.cfg -> FS -> bytes -> FS * list delivery * outc) pk sk cfg : forall chunks st l,
   run_serial recv pk sk cfg st l chunks = run_serial recv pk sk cfg st l (filter nonempty chunks).
-Proof.
-  induction chunks as [|c cs IH]; intros st l; [reflexivity|].
-  destruct c as [|x c']; cbn [filter nonempty run_serial]; [apply IH|].
-  destruct (recv (framer_cfg sk cfg l) st (x :: c')) as [[s1 d1] o].
-  destruct (handle_all pk sk cfg l d1) as [[l1 b1] flt]. destruct flt; [reflexivity|].
-  destruct o; try reflexivity; now rewrite IH.
-Qed.
-
-Lemma filter_nonempty_all chunks : Forall (fun c => c <> []) (filter nonempty chunks).
-Proof. apply Forall_forall. intros c Hc. apply filter_In in Hc as [_ Hc]. destruct c; [discriminate|discriminate]. Qed.
-
-Lemma concat_filter_nonempty chunks : concat (filter nonempty chunks) = concat chunks.
-Proof. induction chunks as [|c cs IH]; [reflexivity|]. destruct c; cbn [filter nonempty concat app]; [exact IH|now rewrite IH]. Qed.
-End Loop.
+Proof. intros. unfold run_serial. apply run_serial_filter_g. Qed.
 
 (* a handler that resets the frame when the framer raises behaves like the bare framer as long as
    nothing is raised *)
@@ -207,6 +177,6 @@ Proof.
               (ascii_frames sk cfg l qs Hok) Hcat') as (st' & Hfeed).
   exists l', st'. split; [|exact Hrel'].
   unfold ascii_server_run. rewrite run_serial_filter.
-  eapply run_serial_feed; [exact (proj1 Hfe)|apply filter_nonempty_all| |exact Hall].
+  eapply (run_serial_feed _ packet_ascii); [exact (proj1 Hfe)|apply filter_nonempty_all| |exact Hall].
   exact (feed_reset_h (a_recv base lrc ascii e2e_dec (framer_cfg sk cfg l)) (a_reset ascii) _ _ _ _ Hfeed).
 Qed.
